@@ -50,6 +50,8 @@ pub struct CaseInput {
     pub direct_inputs: Vec<String>,
     /// direct output addresses (BOOL) read back after every cycle
     pub direct_outputs: Vec<String>,
+    /// (area letter Q|M, first byte, length): image bytes bound only to never-assigned variables
+    pub const_ranges: Vec<(char, usize, usize)>,
     pub trace: Vec<Step>,
 }
 
@@ -59,11 +61,12 @@ impl CaseInput {
         let mut v = Vec::new();
         v.push(format!("opts {}", if self.with_paths { 1 } else { 0 }));
         v.push(format!(
-            "inputs {} | {} | {} | {}",
+            "inputs {} | {} | {} | {} | {}",
             join(self.bool_inputs.iter(), " "),
             join(self.int_inputs.iter(), " "),
             join(self.direct_inputs.iter(), " "),
-            join(self.direct_outputs.iter(), " ")
+            join(self.direct_outputs.iter(), " "),
+            join(self.const_ranges.iter().map(|(a, b, l)| format!("{a}{b}+{l}")), " ")
         ));
         for (p, t) in &self.files {
             v.push(format!("src {} {}", hex(p.as_bytes()), hex(t.as_bytes())));
@@ -92,6 +95,7 @@ impl CaseInput {
             int_inputs: Vec::new(),
             direct_inputs: Vec::new(),
             direct_outputs: Vec::new(),
+            const_ranges: Vec::new(),
             trace: Vec::new(),
         };
         for line in text.lines() {
@@ -101,7 +105,7 @@ impl CaseInput {
                 Some("inputs") => {
                     let rest = line["inputs".len()..].to_string();
                     let parts: Vec<&str> = rest.split('|').collect();
-                    if parts.len() != 4 {
+                    if parts.len() != 5 {
                         return Err("inputs line".into());
                     }
                     let names = |s: &str| s.split_whitespace().map(|x| x.to_string()).collect::<Vec<_>>();
@@ -109,6 +113,11 @@ impl CaseInput {
                     c.int_inputs = names(parts[1]);
                     c.direct_inputs = names(parts[2]);
                     c.direct_outputs = names(parts[3]);
+                    for r in names(parts[4]) {
+                        let area = r.chars().next().ok_or("range")?;
+                        let (b, l) = r[1..].split_once('+').ok_or("range")?;
+                        c.const_ranges.push((area, b.parse().map_err(|_| "range")?, l.parse().map_err(|_| "range")?));
+                    }
                 }
                 Some("src") => {
                     let p = String::from_utf8(unhex(ws[1])).map_err(|e| e.to_string())?;
@@ -157,6 +166,8 @@ impl CaseInput {
 
 #[derive(Clone, Debug, Default, PartialEq, Eq)]
 pub struct Observation {
+    /// per cycle: (cycle ran Ok and no fault/restart so far, hex of the constant image ranges)
+    pub const_images: Vec<(bool, String)>,
     /// self-test: iteration order of a 32-key std HashMap in the observing process/thread
     pub hash_order: String,
     /// `Ok(container bytes)` or `Err(message)`
@@ -240,6 +251,7 @@ pub fn observe(case: &CaseInput, pace_us: u64) -> Observation {
     match std::panic::catch_unwind(std::panic::AssertUnwindSafe(|| observe_inner(case, pace_us))) {
         Ok(o) => o,
         Err(_) => Observation {
+            const_images: Vec::new(),
             hash_order: hash_order_probe(),
             compile: None,
             build_error: Some("panic".into()),
@@ -262,6 +274,7 @@ fn observe_inner(case: &CaseInput, pace_us: u64) -> Observation {
     };
     let control = rt.enable_debug();
     let _ = control.drain_runtime_events();
+    let mut steady = true;
     for step in &case.trace {
         let mut pre = String::new();
         if step.restart != 0 {
@@ -286,7 +299,31 @@ fn observe_inner(case: &CaseInput, pace_us: u64) -> Observation {
         }
         let result = rt.execute_cycle();
         let events: Vec<String> = control.drain_runtime_events().iter().map(|e| format!("{e:?}")).collect();
-        obs.cycles.push(dump_cycle(&rt, case, &pre, &result, &events));
+        let mut dump = dump_cycle(&rt, case, &pre, &result, &events);
+        // publishing the same variable state again must give the same images (the output flush is a
+        // function of the state, not of a hash seed): three more flushes, images recorded
+        if result.is_ok() {
+            let storage = rt.storage().clone();
+            for round in 0..3 {
+                let r = rt.io_mut().write_outputs(&storage);
+                let _ = writeln!(
+                    dump,
+                    "republish {round} {:?} out={} mem={}",
+                    r.map_err(|e| e.to_string()),
+                    hex(rt.io().outputs()),
+                    hex(rt.io().memory())
+                );
+            }
+        }
+        steady = steady && result.is_ok() && step.restart == 0 && !rt.faulted();
+        let mut ranges = String::new();
+        for (area, start, len) in &case.const_ranges {
+            let img = if *area == 'Q' { rt.io().outputs() } else { rt.io().memory() };
+            let bytes: Vec<u8> = (*start..*start + *len).map(|i| img.get(i).copied().unwrap_or(0)).collect();
+            let _ = write!(ranges, "{area}{start}:{};", hex(&bytes));
+        }
+        obs.const_images.push((steady, ranges));
+        obs.cycles.push(dump);
         if pace_us > 0 {
             std::thread::sleep(std::time::Duration::from_micros(pace_us));
         }
@@ -452,6 +489,8 @@ struct ModelOps {
     lines: Vec<String>,
     strings: usize,
     pous: usize,
+    /// (section name, number of entries) of the decoded container
+    sections: Vec<(&'static str, usize)>,
 }
 
 /// The model-vs-implementation operations derived from the parent's runtime and decoded container.
@@ -535,7 +574,30 @@ fn model_ops(case: &CaseInput, bytes: &[u8]) -> Result<ModelOps, String> {
     lines.push(format!("impl {}", tables.join(",")));
     lines.push(format!("strtab {}", join(strings.iter().map(|s| hx(s)), " ")));
     lines.push(format!("impl {}", strings.len()));
-    Ok(ModelOps { lines, strings: strings.len(), pous: index.entries.len() })
+    let mut sections: Vec<(&'static str, usize)> = Vec::new();
+    for sec in &module.sections {
+        match &sec.data {
+            SectionData::StringTable(t) => sections.push(("strings", t.entries.len())),
+            SectionData::DebugStringTable(t) => sections.push(("debug_strings", t.entries.len())),
+            SectionData::TypeTable(t) => sections.push(("types", t.entries.len())),
+            SectionData::ConstPool(t) => sections.push(("consts", t.entries.len())),
+            SectionData::RefTable(t) => sections.push(("refs", t.entries.len())),
+            SectionData::PouIndex(t) => sections.push(("pous", t.entries.len())),
+            SectionData::ResourceMeta(t) => {
+                sections.push(("tasks", t.resources.iter().map(|r| r.tasks.len()).sum()));
+                sections.push((
+                    "task_programs",
+                    t.resources.iter().flat_map(|r| r.tasks.iter()).map(|t| t.program_name_idx.len()).max().unwrap_or(0),
+                ));
+            }
+            SectionData::IoMap(t) => sections.push(("io_bindings", t.bindings.len())),
+            SectionData::DebugMap(t) => sections.push(("debug_entries", t.entries.len())),
+            SectionData::VarMeta(t) => sections.push(("var_meta", t.entries.len())),
+            SectionData::RetainInit(t) => sections.push(("retain_init", t.entries.len())),
+            _ => {}
+        }
+    }
+    Ok(ModelOps { lines, strings: strings.len(), pous: index.entries.len(), sections })
 }
 
 fn child_command(exe: &std::path::Path, file: &str, i: usize) -> std::process::Command {
@@ -661,7 +723,13 @@ pub fn run_case(n: u64, case: &CaseInput, children: usize, tmp_dir: &std::path::
                 out.count("child_failed");
                 all.push((
                     format!("child-{}", i + 1),
-                    Observation { hash_order: String::new(), compile: None, build_error: Some(e), cycles: Vec::new() },
+                    Observation {
+                        const_images: Vec::new(),
+                        hash_order: String::new(),
+                        compile: None,
+                        build_error: Some(e),
+                        cycles: Vec::new(),
+                    },
                 ));
             }
         }
@@ -688,6 +756,13 @@ pub fn run_case(n: u64, case: &CaseInput, children: usize, tmp_dir: &std::path::
                 pous = m.pous;
                 out.add("strings_interned", m.strings as u64);
                 out.add("pous", m.pous as u64);
+                // how well the sections of the container are populated (several entries each)
+                for (name, n) in &m.sections {
+                    out.add(&format!("sec_{name}_entries"), *n as u64);
+                    if *n >= 2 {
+                        out.count(&format!("sec_{name}_cases_with_2plus"));
+                    }
+                }
             }
             Err(e) => out.line(format!("# model ops unavailable: {e}")),
         }
@@ -747,6 +822,32 @@ pub fn run_case(n: u64, case: &CaseInput, children: usize, tmp_dir: &std::path::
             }
         }
     }
+    // within ONE process, across cycles: image bytes bound only to never-assigned variables, and the
+    // republished images of every cycle, must not change (parent's first observation)
+    let steady: Vec<&str> = parent.const_images.iter().filter(|(ok, _)| *ok).map(|(_, s)| s.as_str()).collect();
+    if !case.const_ranges.is_empty() && steady.len() >= 2 {
+        out.line(format!("xconst {}", join(steady.iter().skip(1).map(|s| digest(s.as_bytes())), " ")));
+        out.line(format!("impl {}", digest(steady[0].as_bytes())));
+        if steady.iter().any(|s| *s != steady[0]) {
+            out.line(format!("# diverge xconst: constant image ranges changed between cycles: {}", steady.join(" | ").chars().take(300).collect::<String>()));
+            out.count("diverge_const");
+        }
+        out.count("cases_with_const_ranges");
+    }
+    for (i, c) in parent.cycles.iter().enumerate() {
+        let rep: Vec<&str> = c.lines().filter(|l| l.starts_with("republish ")).map(|l| l.splitn(3, ' ').nth(2).unwrap_or("")).collect();
+        if rep.len() >= 2 {
+            let first_img = c.lines().find(|l| l.starts_with("in=")).map(|l| l.splitn(2, ' ').nth(1).unwrap_or("").to_string()).unwrap_or_default();
+            let mut all_imgs: Vec<String> = vec![first_img];
+            all_imgs.extend(rep.iter().map(|r| r.splitn(2, ' ').nth(1).unwrap_or("").to_string()));
+            out.line(format!("xrepub {i} {}", join(all_imgs.iter().skip(1).map(|s| digest(s.as_bytes())), " ")));
+            out.line(format!("impl {}", digest(all_imgs[0].as_bytes())));
+            if all_imgs.iter().any(|s| *s != all_imgs[0]) {
+                out.line(format!("# diverge xrepub {i}: republishing the same state changed the images: {}", all_imgs.join(" | ").chars().take(300).collect::<String>()));
+                out.count("diverge_republish");
+            }
+        }
+    }
     out.add("cycles_compared", ncycles as u64);
     out.add("processes", (all.len() + 1) as u64);
     if parent.cycles.iter().any(|c| c.contains("faulted=true")) {
@@ -781,6 +882,7 @@ pub fn run(args: &Args) -> i32 {
             int_inputs: vec![],
             direct_inputs: vec![],
             direct_outputs: vec![],
+            const_ranges: vec![],
             trace: (0..3).map(|_| Step { dt_ns: 10_000_000, bools: vec![], ints: vec![], restart: 0 }).collect(),
         };
         let obs = observe(&case, 0);
